@@ -1,6 +1,7 @@
 package c11
 
 import (
+	"bytes"
 	"runtime"
 	"strings"
 	"sync"
@@ -48,11 +49,55 @@ type controller struct {
 	keyHits map[string]map[int64]int64
 	// triggers: run f (outside the lock) at the n-th hit of a point (stress: cancel a participant there)
 	triggers map[string]map[int64]func()
-	trace    []string
-	closed   bool
-	perturb  bool
-	seed     uint64
-	pseq     atomic.Uint64
+	// events: every hit with the participant it happened on (the hooks run on the participant's
+	// goroutine or on a fetch goroutine it created); used to say who was whose leader
+	events  []hookEvent
+	gmap    map[int64]int
+	trace   []string
+	closed  bool
+	perturb bool
+	seed    uint64
+	pseq    atomic.Uint64
+}
+
+type hookEvent struct {
+	seq   int
+	point string
+	key   int64
+	pid   int // -1: not on a participant's goroutine (or not attributable)
+}
+
+// goids: id of the calling goroutine and of the goroutine that created it (0 if unknown), read
+// from the goroutine's own stack header / trailer.
+func goids() (self, parent int64) {
+	var buf [16384]byte
+	n := runtime.Stack(buf[:], false)
+	s := buf[:n]
+	num := func(b []byte) int64 {
+		var v int64
+		for _, c := range b {
+			if c < '0' || c > '9' {
+				break
+			}
+			v = v*10 + int64(c-'0')
+		}
+		return v
+	}
+	if bytes.HasPrefix(s, []byte("goroutine ")) {
+		self = num(s[len("goroutine "):])
+	}
+	if i := bytes.LastIndex(s, []byte(" in goroutine ")); i >= 0 {
+		parent = num(s[i+len(" in goroutine "):])
+	}
+	return
+}
+
+// registerG: the calling goroutine is participant pid.
+func (c *controller) registerG(pid int) {
+	g, _ := goids()
+	c.mu.Lock()
+	c.gmap[g] = pid
+	c.mu.Unlock()
 }
 
 type parkedG struct {
@@ -62,7 +107,7 @@ type parkedG struct {
 }
 
 func newController() *controller {
-	return &controller{armed: map[string]*armSpec{}, hits: map[string]int64{}, keyHits: map[string]map[int64]int64{}, triggers: map[string]map[int64]func(){}}
+	return &controller{armed: map[string]*armSpec{}, hits: map[string]int64{}, keyHits: map[string]map[int64]int64{}, triggers: map[string]map[int64]func(){}, gmap: map[int64]int{}}
 }
 
 var (
@@ -86,8 +131,16 @@ func (c *controller) yield(point string, key int64) {
 	if !strings.HasPrefix(point, "inbound.") && !strings.HasPrefix(point, "subgraph.") {
 		return
 	}
+	self, parent := goids()
 	c.mu.Lock()
 	c.hits[point]++
+	pid, ok := c.gmap[self]
+	if !ok {
+		if pid, ok = c.gmap[parent]; !ok {
+			pid = -1
+		}
+	}
+	c.events = append(c.events, hookEvent{seq: len(c.events), point: point, key: key, pid: pid})
 	if c.keyHits[point] == nil {
 		c.keyHits[point] = map[int64]int64{}
 	}
@@ -236,4 +289,10 @@ func (c *controller) snapshotHits() map[string]int64 {
 		out[k] = v
 	}
 	return out
+}
+
+func (c *controller) snapshotEvents() []hookEvent {
+	c.mu.Lock()
+	defer c.mu.Unlock()
+	return append([]hookEvent(nil), c.events...)
 }
